@@ -110,10 +110,21 @@ Proof.
 Qed.
 
 (* ---- the whole criterion language on P ---- *)
-Lemma pcrit_tr : forall e pa p c, lookup e pa = grow_p p -> pa <> sub_alias -> contains_ok d c = true ->
+Lemma link_aj : forall (p : prow) (n : crow) (a : Z * Z) e pa na aa,
+  lookup e pa = grow_p p -> lookup e na = grow_c n -> lookup e aa = grow_a a ->
+  is_true (beval d e (aj pa na aa)) = link a p n.
+Proof.
+  intros p n a e pa na aa Hp Hn Ha. unfold aj, link. cbn [beval eeval]. rewrite is_true_and3, Hp, Hn, Ha.
+  cbn [gcol grow_p grow_c grow_a g_id g_pid cmp3 cmpZ]. rewrite !is_true_tv_of_bool. reflexivity.
+Qed.
+
+Lemma pcrit_tr : forall e pa p c, lookup e pa = grow_p p -> pa < sub_alias -> contains_ok d c = true ->
   beval d e (tr_pcrit d pa c) = peval d p c.
 Proof.
-  intros e pa p c Hl Hne. induction c as [s|s|s|cid|s|s|a IHa b IHb|a IHa b IHb|a IHa]; intros Hok.
+  intros e pa p c Hl Hlt.
+  assert (Hne : pa <> sub_alias) by lia.
+  assert (Hpa : pa = 0 \/ pa = 1) by (unfold sub_alias in Hlt; lia).
+  induction c as [s|s|s|cid|s|s|s|s|a IHa b IHb|a IHa b IHb|a IHa]; intros Hok.
   - cbn [tr_pcrit peval]. rewrite sx_tr, Hl. reflexivity.
   - rewrite (any_semantics e pa p s Hl Hne). reflexivity.
   - rewrite (any_sub_semantics e pa p s Hl Hne). reflexivity.
@@ -125,6 +136,22 @@ Proof.
   - cbn [tr_pcrit beval peval eeval rows_of]. rewrite Hl. cbn [gcol grow_p g_id]. f_equal.
     rewrite filter_map_swap, map_map. cbn [gcol grow_c g_pid].
     f_equal. apply filter_ext'. intros c. rewrite sx_tr. cbn [lookup]. rewrite Nat.eqb_refl. reflexivity.
+  - (* many-to-many any() *)
+    cbn [tr_pcrit beval peval rows_of]. f_equal. rewrite existsb_map. apply existsb_ext'. intros n.
+    rewrite is_true_tv_of_bool, existsb_map. apply existsb_ext'. intros a.
+    cbn [beval]. rewrite is_true_and3, sx_tr.
+    rewrite (link_aj p n a); [cbn [lookup Nat.eqb gcol grow_c g_y]; reflexivity | | reflexivity | reflexivity].
+    destruct Hpa; subst pa; cbn [lookup Nat.eqb]; exact Hl.
+  - (* nested any() across the shared association table *)
+    cbn [tr_pcrit beval peval rows_of]. f_equal. rewrite existsb_map. apply existsb_ext'. intros n.
+    rewrite is_true_tv_of_bool, existsb_map. apply existsb_ext'. intros a.
+    cbn [beval]. rewrite is_true_and3.
+    rewrite (link_aj p n a); [ | | reflexivity | reflexivity].
+    2:{ destruct Hpa; subst pa; cbn [lookup Nat.eqb]; exact Hl. }
+    f_equal. rewrite is_true_tv_of_bool, existsb_map. apply existsb_ext'. intros p'.
+    rewrite is_true_tv_of_bool, existsb_map. apply existsb_ext'. intros a'.
+    cbn [beval]. rewrite is_true_and3, sx_tr.
+    rewrite (link_aj p' n a'); [cbn [lookup Nat.eqb gcol grow_p g_x]; reflexivity | reflexivity | reflexivity | reflexivity].
   - cbn [contains_ok] in Hok. apply andb_true_iff in Hok. destruct Hok as [H1 H2].
     cbn [tr_pcrit beval peval]. rewrite (IHa H1), (IHb H2). reflexivity.
   - cbn [contains_ok] in Hok. apply andb_true_iff in Hok. destruct Hok as [H1 H2].
@@ -132,12 +159,25 @@ Proof.
   - cbn [contains_ok] in Hok. cbn [tr_pcrit beval peval]. rewrite (IHa Hok). reflexivity.
 Qed.
 
-Lemma ccrit_tr : forall e ca c k, lookup e ca = grow_c c -> ca <> sub_alias ->
+Lemma ccrit_tr : forall e ca c k, lookup e ca = grow_c c -> ca < sub_alias ->
   beval d e (tr_ccrit ca k) = ceval d c k.
 Proof.
-  intros e ca c k Hl Hne. induction k as [s|s|a IHa b IHb|a IHa b IHb|a IHa].
+  intros e ca c k Hl Hlt.
+  assert (Hne : ca <> sub_alias) by lia.
+  assert (Hca : ca = 0 \/ ca = 1) by (unfold sub_alias in Hlt; lia).
+  induction k as [s|s| |s|a IHa b IHb|a IHa b IHb|a IHa].
   - cbn [tr_ccrit ceval]. rewrite sx_tr, Hl. reflexivity.
   - rewrite (has_semantics e ca c s Hl Hne). reflexivity.
+  - (* == None on the many-to-one *)
+    cbn [tr_ccrit beval ceval eeval]. rewrite Hl. cbn [gcol grow_c g_pid]. reflexivity.
+  - (* has(any()) coming back to C *)
+    cbn [tr_ccrit beval ceval rows_of]. f_equal. rewrite existsb_map. apply existsb_ext'. intros p.
+    cbn [beval]. rewrite is_true_and3, is_true_tv_of_bool, existsb_map.
+    assert (Hc : lookup ((2, grow_p p) :: e) ca = grow_c c).
+    { destruct Hca; subst ca; cbn [lookup Nat.eqb]; exact Hl. }
+    cbn [eeval]. rewrite Hc. cbn [lookup Nat.eqb gcol grow_p grow_c g_id g_pid]. rewrite pj_child. f_equal.
+    apply existsb_ext'. intros c'. cbn [beval]. rewrite is_true_and3, sx_tr.
+    cbn [eeval lookup Nat.eqb gcol grow_p grow_c g_id g_pid g_y]. rewrite pj_child. reflexivity.
   - cbn [tr_ccrit beval ceval]. rewrite IHa, IHb. reflexivity.
   - cbn [tr_ccrit beval ceval]. rewrite IHa, IHb. reflexivity.
   - cbn [tr_ccrit beval ceval]. rewrite IHa. reflexivity.
